@@ -169,6 +169,32 @@ func c07(c *Ctx) {
 						}
 					}
 				}
+				// response direction when the request's Content-Type is spelled otherwise
+				if ctx == "top" && (rv.Class == "full0" || rv.Class == "full1") {
+					for _, alt := range altRequestCTs {
+						caseID := fmt.Sprintf("%s/ctx=%s/dir=resp/ct=%s@%s", base, ctx, alt.Label, vclass)
+						if !c.Want(caseID) {
+							continue
+						}
+						gs.Script(rpc, map[string]any{"resp": b64(wire(M))})
+						emptyTree, _ := enc.Message(dynamicpb.NewMessage(ctxMD))
+						var hdr [][2]string
+						if alt.CT != "" {
+							hdr = [][2]string{{"Content-Type", alt.CT}}
+						}
+						resp, err := rawHTTP("POST", gs.URL, u.FP.Path[ctx], hdr, jsonmap.Marshal(emptyTree))
+						c.R.Eval(1)
+						_, _ = syncEvents(ch)
+						if err != nil || resp.Status != 200 || !strings.HasPrefix(resp.Header.Get("Content-Type"), "application/json") {
+							continue
+						}
+						if t, perr := jsonmap.Parse(resp.Body); perr == nil {
+							probs := chk.CheckNamed(t, sig[1])
+							reportTS(c, caseID, probs, map[string]any{"proto": protoText, "rpc": rpc, "request_content_type": alt.CT, "declared_result_type": sig[1], "declaration": typeText(cm, sig[1]), "wire_json": string(resp.Body)}, ctxMD)
+							c.R.Decided(caseID)
+						}
+					}
+				}
 				// request direction: contract-form body that the server accepts
 				caseID = fmt.Sprintf("%s/ctx=%s/dir=req@%s", base, ctx, vclass)
 				if c.Want(caseID) {
